@@ -453,13 +453,73 @@ pub fn check_roundtrip(bytes: &[u8], ctx: &CtxSummary) -> Vec<Violation> {
   field("header.feature_count", h.feature_count as usize == ctx.features.len(), format!("{} vs {}", h.feature_count, ctx.features.len()));
   let dec_types: Vec<(u16, Vec<u8>)> = prog.types.entries.iter().map(|t| (t.tag.clone() as u16, t.bytes.clone())).collect();
   field("types", dec_types == ctx.types, format!("{} vs {} entries", dec_types.len(), ctx.types.len()));
-  // constants decode without panicking
+  // the constants of an emitted file decode (no panic, no error), and every decoded constant,
+  // encoded again by the compiler's own constant encoder, gives the bytes the compiler wrote
   match catch_unwind(AssertUnwindSafe(|| prog.decode_const_entries())) {
     Err(p) => { let (m, l) = take_last_panic().unwrap_or((crate::hashseed::panic_message(&p), String::new())); out.push(v("const-decoder-panicked-on-emitted-file", format!("{}|{}", l, msg_class(&m)), format!("decode_const_entries panicked on an emitted file: {} @{}", m, l))); }
-    Ok(_) => {}
+    Ok(Err(e)) => {
+      take_last_panic();
+      // which constant? decode them one at a time (same blob, one entry)
+      let mut culprit = String::from("?");
+      for (i, ce) in prog.const_entries.iter().enumerate() {
+        let mut one = prog.clone();
+        one.const_entries = vec![ce.clone()];
+        take_last_panic();
+        let r = catch_unwind(AssertUnwindSafe(|| one.decode_const_entries()));
+        // a panic inside the decoder is turned into MalformedConstant by the decoder itself; the
+        // hook still saw where it happened, which tells one cause from another
+        let inner = take_last_panic();
+        if !matches!(r, Ok(Ok(_))) {
+          let tag = prog.types.entries.get(ce.type_id as usize).map(|t| format!("{:?}", t.tag)).unwrap_or("no-such-type".into());
+          culprit = format!("{} (constant {} of {})", tag, i, prog.const_entries.len());
+          // file without the line number: a recorded finding must survive unrelated edits above it
+          let (site, why) = match &inner { Some((m, l)) => (l.rsplit_once(':').map(|(f, _)| f.to_string()).unwrap_or(l.clone()), msg_class(m)), None => (String::new(), String::new()) };
+          // one report per distinct cause in this file (a recorded finding must not hide another)
+          let ename = match &r { Ok(Err(e1)) => e1.kind_name(), _ => e.kind_name() };
+          let detail = format!("{}|{}|{}|{}", ename, tag, site, why);
+          if !out.iter().any(|x| x.signature.ends_with(&detail)) {
+            out.push(v("emitted-constants-rejected", detail, format!("decode_const_entries rejects the constants of a file the compiler emitted: {} at a constant of type {}{}", ename, culprit, inner.as_ref().map(|(m, l)| format!(" (inside the decoder: {} @{})", crate::node::trunc(m, 160), l)).unwrap_or_default())));
+          }
+        }
+      }
+      if culprit == "?" { out.push(v("emitted-constants-rejected", e.kind_name(), format!("decode_const_entries rejects the constants of a file the compiler emitted: {}", e.kind_name()))); }
+    }
+    Ok(Ok(values)) => {
+      if values.len() != ctx.const_entries.len() {
+        out.push(v("decoded-field-differs", "constants.len".into(), format!("{} constants decoded, {} written", values.len(), ctx.const_entries.len())));
+      } else {
+        for (i, val) in values.iter().enumerate() {
+          let (_, _, _, off, len) = ctx.const_entries[i];
+          let (off, len) = (off as usize, len as usize);
+          if off + len > ctx.const_blob.len() { continue; }
+          let written = &ctx.const_blob[off..off + len];
+          let mut c2 = CompileCtx::new();
+          match catch_unwind(AssertUnwindSafe(|| val.compile_const(&mut c2))) {
+            Ok(Ok(_)) => {
+              CONSTS_COMPARED.with(|c| c.set(c.get() + 1));
+              let again: Vec<u8> = match c2.const_entries.last() { Some(e) => { let (o, l) = (e.offset as usize, e.length as usize); if o + l <= c2.const_blob.len() { c2.const_blob[o..o + l].to_vec() } else { vec![] } } None => vec![] };
+              if again != written {
+                let first = again.iter().zip(written.iter()).position(|(a, b)| a != b).unwrap_or(again.len().min(written.len()));
+                let tag = format!("{:?}", val.kind()).split(|ch: char| !ch.is_alphanumeric()).next().unwrap_or("").to_string();
+                out.push(v("decoded-constant-differs", tag, format!("constant {} decodes to a value whose encoding differs from the bytes the compiler wrote ({} vs {} bytes, first difference at {})", i, again.len(), written.len(), first)));
+                break;
+              }
+            }
+            _ => { take_last_panic(); CONSTS_NOT_REENCODABLE.with(|c| c.set(c.get() + 1)); }
+          }
+        }
+      }
+    }
   }
   out
 }
+
+thread_local! {
+  /// per-thread tallies of the constant comparison above (read and reset by `take_const_tallies`)
+  static CONSTS_COMPARED: std::cell::Cell<u64> = const { std::cell::Cell::new(0) };
+  static CONSTS_NOT_REENCODABLE: std::cell::Cell<u64> = const { std::cell::Cell::new(0) };
+}
+pub fn take_const_tallies() -> (u64, u64) { (CONSTS_COMPARED.with(|c| c.replace(0)), CONSTS_NOT_REENCODABLE.with(|c| c.replace(0))) }
 
 fn section_of(b: &[u8], pos: usize) -> String {
   if pos < HEADER_SIZE { return "header".into(); }
@@ -486,12 +546,79 @@ fn bump(m: &mut BTreeMap<String, u64>, k: &str, n: u64) { *m.entry(k.to_string()
 
 pub struct Plan { pub program: usize, pub hs_producer: u64, pub hs_consumer: u64, pub enumerate: bool, pub trials: usize, pub via_file: bool }
 
+/// A program made of literal definitions only: every constant class the compiler can put into the
+/// constant table, with variable-width elements (strings of differing byte lengths, multi-byte
+/// characters) inside every container, so that decoders that walk a blob element by element are
+/// exercised on more than the suite's equal-length examples.
+pub fn constants_program(rng: &mut Rng) -> (String, String) {
+  fn rand_string(rng: &mut Rng) -> String {
+    let pool = ['a', 'b', 'z', 'A', 'Q', '0', '7', ' ', '-', '.', 'é', 'ü', 'λ', '✓', '中'];
+    let len = *rng.pick(&[0usize, 1, 1, 2, 3, 3, 5, 8, 13]);
+    (0..len).map(|_| *rng.pick(&pool)).collect()
+  }
+  fn num(rng: &mut Rng, kind: &str) -> String {
+    let v = *rng.pick(&[0u64, 1, 2, 3, 7, 42, 100, 127]);
+    match kind {
+      "f64" => if rng.chance(1, 2) { format!("{}", v) } else { format!("{}.{}", v, *rng.pick(&[5u64, 25, 125])) },
+      k => format!("{}<{}>", v, k),
+    }
+  }
+  fn scalar(rng: &mut Rng) -> String {
+    match rng.below(8) {
+      0 => format!("\"{}\"", rand_string(rng)),
+      1 => if rng.chance(1, 2) { "true".into() } else { "false".into() },
+      2 => format!("{}/{}", 1 + rng.below(9), 1 + rng.below(9)),
+      3 => format!("{}+{}i", rng.below(9), 1 + rng.below(9)),
+      4 => format!(":{}", *rng.pick(&["ok", "red", "north"])),
+      _ => { let k = *rng.pick(&["f64", "f64", "u8", "u16", "u32", "u64", "u128", "i8", "i16", "i32", "i64", "i128", "f32"]); num(rng, k) }
+    }
+  }
+  fn matrix(rng: &mut Rng) -> String {
+    let (r, c) = (1 + rng.usize(4), 1 + rng.usize(4));
+    let kind = *rng.pick(&["f64", "f64", "string", "string", "bool", "u8", "u64", "u16"]);
+    let mut rows = vec![];
+    for _ in 0..r {
+      let row: Vec<String> = (0..c).map(|_| match kind { "string" => format!("\"{}\"", rand_string(rng)), "bool" => if rng.chance(1, 2) { "true".into() } else { "false".into() }, k => num(rng, k) }).collect();
+      rows.push(row.join(" "));
+    }
+    format!("[{}]", rows.join("; "))
+  }
+  let mut lines = vec![];
+  let n = 1 + rng.usize(5);
+  for i in 0..n {
+    let lit = match rng.below(12) {
+      0 | 1 => scalar(rng),
+      2 | 3 | 4 | 5 => matrix(rng),
+      6 => { let m = 2 + rng.usize(4); let strs = rng.chance(1, 2); format!("{{{}}}", (0..m).map(|j| if strs { format!("\"{}{}\"", rand_string(rng), j) } else { format!("{}", j * 3 + rng.usize(3)) }).collect::<Vec<_>>().join(", ")) }
+      7 => format!("{{a: {}, b: {}, c: {}}}", scalar(rng), scalar(rng), matrix(rng)),
+      8 | 9 => {
+        let rows = 1 + rng.usize(4);
+        let body: Vec<String> = (0..rows).map(|_| format!("\"{}\" {} {}", rand_string(rng), num(rng, "f64"), if rng.chance(1, 2) { "true" } else { "false" })).collect();
+        format!("|n<string> v<f64> b<bool>| {} |", body.join(" | "))
+      }
+      10 => { let m = 1 + rng.usize(3); format!("{{{}}}", (0..m).map(|j| format!("\"k{}{}\": {}", j, rand_string(rng), if rng.chance(1, 2) { format!("\"{}\"", rand_string(rng)) } else { num(rng, "f64") })).collect::<Vec<_>>().join(", ")) }
+      _ => matrix(rng), // no tuple literals: `compile()` does not terminate on tuple constants (pinned tree)
+    };
+    lines.push(format!("c{} := {}", i, lit));
+  }
+  ("generated-constants".to_string(), lines.join("\n"))
+}
+
 pub fn plan(seed: u64, k: u64, corpus_len: usize, thorough: bool) -> (Plan, Rng) {
   let mut rng = Rng::for_run(seed, WORLD_ID * 16, k);
   // the first corpus_len runs walk the corpus in order (every emitted file gets its baseline and
   // round trip; in the thorough tier also the complete truncation / bit-flip enumeration)
-  let program = if (k as usize) < corpus_len { k as usize } else { rng.usize(corpus_len) };
-  let enumerate = (k as usize) < corpus_len && (thorough || k < 24);
+  // Interleaved walk: runs 0..24 are corpus[0..24]; after that every fourth run is a generated
+  // program and the other three continue the walk, until the corpus is exhausted; then seeded picks.
+  const GENERATED: usize = usize::MAX;
+  let (program, in_walk) = if (k as usize) < 24.min(corpus_len) { (k as usize, true) } else {
+    let k2 = k as usize - 24.min(corpus_len);
+    if k2 % 4 == 3 { (GENERATED, false) } else {
+      let idx = 24.min(corpus_len) + (k2 - k2 / 4);
+      if idx < corpus_len { (idx, true) } else if rng.chance(1, 2) { (GENERATED, false) } else { (rng.usize(corpus_len), false) }
+    }
+  };
+  let enumerate = in_walk && (thorough || k < 24);
   let hs_producer = rng.next();
   let hs_consumer = rng.next();
   let trials = 150 + rng.usize(250);
@@ -503,11 +630,13 @@ pub fn run(seed: u64, k: u64, corpus: &std::sync::Arc<Vec<(String, String)>>, th
   let (pl, mut rng) = plan(seed, k, corpus.len(), thorough);
   // beyond the corpus walk, one run in three compiles a generated program (W1's valid statements
   // batched into one text, assignment templates, relational programs) instead of a harvested one
-  let (name, text) = if (k as usize) >= corpus.len() && rng.chance(1, 3) {
-    match rng.below(3) {
-      0 => ("generated-session".to_string(), crate::w2::generated_program(&mut rng, true)),
+  let generated = pl.program == usize::MAX;
+  let (name, text) = if generated {
+    match rng.below(6) {
+      0 => ("generated-session".to_string(), crate::w2::generated_program_without(&mut rng, true, &["tuple"])),
       1 => crate::w2::template_program(&mut rng),
-      _ => crate::w2::relational_program(&mut rng),
+      2 => crate::w2::relational_program(&mut rng),
+      _ => constants_program(&mut rng),
     }
   } else { corpus[pl.program].clone() };
   let mut counters = BTreeMap::new();
@@ -518,7 +647,8 @@ pub fn run(seed: u64, k: u64, corpus: &std::sync::Arc<Vec<(String, String)>>, th
   // some suite snippets (tuple constants) send `compile()` into an endless loop. The producer gets a
   // deadline; a program that misses it is recorded (shared between workers) and contributes no file.
   let hung_list = format!("/dev/shm/mechsim-w3-hung-{}.txt", parent_pid());
-  if std::fs::read_to_string(&hung_list).map(|t| t.lines().any(|l| l == name)).unwrap_or(false) {
+  let hung_key = { let mut d = Digest::new(); d.str(&text); format!("{}#{:016x}", name, d.finish()) };
+  if std::fs::read_to_string(&hung_list).map(|t| t.lines().any(|l| l == hung_key)).unwrap_or(false) {
     bump(&mut counters, "reach:no-file:compile-hung", 1);
     dig.str("compile-hung");
     return RunOut { digest: dig.finish(), nontrivial: false, counters, sets, violations: vec![], sample: J::Null };
@@ -535,7 +665,8 @@ pub fn run(seed: u64, k: u64, corpus: &std::sync::Arc<Vec<(String, String)>>, th
     Ok(r) => r,
     Err(_) => {
       use std::io::Write;
-      if let Ok(mut f) = std::fs::OpenOptions::new().create(true).append(true).open(&hung_list) { writeln!(f, "{}", name).ok(); }
+      if let Ok(mut f) = std::fs::OpenOptions::new().create(true).append(true).open(&hung_list) { writeln!(f, "{}", hung_key).ok(); }
+      if let Ok(dbg) = std::env::var("MECHSIM_HUNG_LOG") { if let Ok(mut f) = std::fs::OpenOptions::new().create(true).append(true).open(&dbg) { writeln!(f, "{}\t{}", hung_key, text.replace('\n', " ⏎ ")).ok(); } }
       crate::supervisor::EXIT_AFTER_RUN.store(true, std::sync::atomic::Ordering::SeqCst);
       bump(&mut counters, "reach:no-file:compile-hung", 1);
       dig.str("compile-hung");
@@ -587,6 +718,9 @@ pub fn run(seed: u64, k: u64, corpus: &std::sync::Arc<Vec<(String, String)>>, th
     let mut dig = Digest::new();
     // configuration 0 and 1
     violations.extend(check_roundtrip(&bytes, &ctx));
+    let (cmp, unav) = take_const_tallies();
+    bump(&mut counters, "constants-decoded-and-reencoded", cmp);
+    bump(&mut counters, "constants-without-reencoder", unav);
     bump(&mut counters, "roundtrips", 1);
     let mut trial = |m: Mutation, counters: &mut BTreeMap<String, u64>, violations: &mut Vec<Violation>, dig: &mut Digest| {
       let damaged = m.apply(&bytes);
